@@ -2432,10 +2432,12 @@ func genEngine(r *rng, n int, tier string, emit0 func(J)) {
 			}
 			// the directed plans are directed to the end (the twin history — the same requests without the preview — follows the same goals)
 			plans = append(plans,
-				directed(g, J{"slow_store": true, "twin": true}, goal(0, "waiting"), goal(1, "finish"), goal(2, "finish"), goal(0, "finish"), goal(3, "finish")),
-				directed(g, J{"twin": true}, goal(0, "commit"), goal(1, "finish"), goal(2, "finish"), goal(0, "finish"), goal(3, "finish")),
-				directed(g, J{"twin": true}, goal(0, []string{"lock", "read-balances", "resolve", "revert-lookup"}[g.n(4)]), goal(1, "finish"), goal(2, "finish"), goal(0, "finish"), goal(3, "finish")),
-				directed(g, J{"slow_store": true, "twin": true}, goal(0, "waiting"), goal(2, "finish"), goal(1, "finish"), goal(0, "finish"), goal(3, "finish")))
+				// (the first real revert has looked its transaction up and does not hold its account locks yet: the preview is not held up)
+				directed(g, J{"slow_store": true, "twin": true}, goal(0, "lock"), goal(1, "finish"), goal(2, "finish"), goal(0, "finish"), goal(3, "finish")),
+				directed(g, J{"twin": true}, goal(0, "resolve"), goal(1, "finish"), goal(2, "finish"), goal(0, "finish"), goal(3, "finish")),
+				directed(g, J{"twin": true}, goal(0, []string{"revert-lookup", "read-balances", "commit"}[g.n(3)]), goal(1, "finish"), goal(2, "finish"), goal(0, "finish"), goal(3, "finish")),
+				// (… is committed and waits for the store: the preview queues for the account locks)
+				directed(g, J{"slow_store": true, "twin": true}, goal(0, "waiting"), goal(1, "finish"), goal(2, "finish"), goal(0, "finish"), goal(3, "finish")))
 		case 2: // a PREVIEW submitted while a real write touching its source account is committed and not yet persisted: it answers what
 			// the real write would answer in the same position (twin: the same scenario, same plan, the preview submitted as the real write)
 			name = "preview while a write on its account waits for the store"
